@@ -59,6 +59,31 @@ fn gen_symbol(rng: &mut Rng) -> Symbol {
         Symbol::Nonterminal(n.to_string())
     }
 }
+/// A zero-sized element type: every element equals every other, a set holds at most one.
+impl Elem for () {
+    fn gen(_rng: &mut Rng) {}
+    const NAME: &'static str = "() (zero-sized)";
+}
+
+/// An element larger than a kilobyte (ordered by its key, the padding is determined by the key).
+#[derive(Clone, PartialEq, Eq, PartialOrd, Ord, Hash)]
+pub struct Fat {
+    key: u16,
+    pad: [u64; 180],
+}
+impl Debug for Fat {
+    fn fmt(&self, f: &mut std::fmt::Formatter<'_>) -> std::fmt::Result {
+        write!(f, "Fat({})", self.key)
+    }
+}
+impl Elem for Fat {
+    fn gen(rng: &mut Rng) -> Fat {
+        let key = *rng.pick(&[0u16, 1, 2, 3, 5, 8, 13, 255, 256, 1000, u16::MAX]);
+        Fat { key, pad: [key as u64; 180] }
+    }
+    const NAME: &'static str = "1448-byte struct";
+}
+
 impl Elem for Symbol {
     fn gen(rng: &mut Rng) -> Symbol {
         gen_symbol(rng)
@@ -340,14 +365,16 @@ impl Engine for OsetEngine {
             kiki::verif_hooks::reset(u64::MAX);
             let r = crate::util::catch(|| {
                 let mut rng2 = rng.clone();
-                match n % 7 {
+                match n % 9 {
                     0 => run_history::<u8>(w, &mut rng2, n_ops),
                     1 => run_history::<i64>(w, &mut rng2, n_ops),
                     2 => run_history::<(u8, String)>(w, &mut rng2, n_ops),
                     3 => run_history::<Reverse<u16>>(w, &mut rng2, n_ops),
                     4 => run_history::<Symbol>(w, &mut rng2, n_ops),
                     5 => run_history::<StateItem>(w, &mut rng2, n_ops),
-                    _ => run_history::<Transition>(w, &mut rng2, n_ops),
+                    6 => run_history::<Transition>(w, &mut rng2, n_ops),
+                    7 => run_history::<Fat>(w, &mut rng2, n_ops.min(60)),
+                    _ => run_history::<()>(w, &mut rng2, n_ops.min(40)),
                 }
             });
             w.count_n("invariant-checks-in-histories", kiki::verif_hooks::oset_checks());
@@ -361,7 +388,7 @@ impl Engine for OsetEngine {
         json!({"class": "oset-history", "batch": idx, "sub": sub})
     }
     fn rule(&self, _prop: &str) -> String {
-        "histories of 5-200 operations (new, from_iter, insert, extend, clone, contains, extend-from-other-set, pair comparison; from_iter and extend receive their elements through 8 iterator shapes: exact size hint, lower bound 0, no hint, chain, flat_map, from_fn, peekable, fuse) over 1-4 live sets, element types u8 (8 values), i64 (with extremes), (u8,String), Reverse<u16>, kiki's Symbol, StateItem and Transition; inputs with duplicates, ascending and descending runs, empties. After every operation every live set is compared with a std BTreeSet model: borrowed, owned and deref iteration strictly increasing and equal to the model, contains, len; pair comparisons check == against set equality, cmp against sets rebuilt along different histories from the same elements, and the order laws (antisymmetry, Equal iff equal, transitivity through a third set, the operators < <= > >= != and partial_cmp agreeing with cmp, a clone equal to its original; Hash and Debug consistency is observed and counted but is not part of the property). One evaluation = one history (or one pipeline run with the H3 invariant hook armed on the real element types). Distinct non-trivial = distinct histories with >= 10 operations.".into()
+        "histories of 5-200 operations (new, from_iter, insert, extend, clone, contains, extend-from-other-set, pair comparison; from_iter and extend receive their elements through 8 iterator shapes: exact size hint, lower bound 0, no hint, chain, flat_map, from_fn, peekable, fuse) over 1-4 live sets, element types u8 (8 values), i64 (with extremes), (u8,String), Reverse<u16>, kiki's Symbol, StateItem and Transition, a 1448-byte struct and the zero-sized (); inputs with duplicates, ascending and descending runs, empties. After every operation every live set is compared with a std BTreeSet model: borrowed, owned and deref iteration strictly increasing and equal to the model, contains, len; pair comparisons check == against set equality, cmp against sets rebuilt along different histories from the same elements, and the order laws (antisymmetry, Equal iff equal, transitivity through a third set, the operators < <= > >= != and partial_cmp agreeing with cmp, a clone equal to its original; Hash and Debug consistency is observed and counted but is not part of the property). One evaluation = one history (or one pipeline run with the H3 invariant hook armed on the real element types). Distinct non-trivial = distinct histories with >= 10 operations.".into()
     }
     fn floors(&self, _prop: &str, _tier: Tier, agg: &Agg) -> Vec<String> {
         let mut out = vec![];
